@@ -113,7 +113,9 @@ def run(repo, rep):
     # greedy
     f = greedy.func("GreedyAllocator.alloc")
     sa = [c for c in calls_in(f, "new_lr.set_address")]
-    if len(sa) != 1 or norm(sa[0].args[0]) != "best_offset":
+    _arg = norm(sa[0].args[0]) if len(sa) == 1 and sa[0].args else ""
+    _cp = [norm(s_.value) for s_ in walk_no_nested(f) if isinstance(s_, ast.Assign) and norm(s_.targets[0]) == _arg and isinstance(s_.value, ast.Name)]
+    if len(sa) != 1 or (_arg != "best_offset" and _cp != ["best_offset"]):
         raise AnalysisError("greedy alloc: set_address sink not recognised")
     align = {"new_lr.get_alignment()"}
     for d in _defs_reaching(f, sa[0], "best_offset"):
@@ -786,7 +788,12 @@ def rule_round11(repo, rep):
     early = [r for r in ast.walk(fn) if isinstance(r, ast.Return) and r.lineno < scan.lineno]
     rep.check(not early, "C05-m", site, "no return precedes the gap scan: every placement goes through it", f"a return at line offset {early[0].lineno - fn.lineno if early else 0} leaves before the scan: the address set on that path was never compared with the live ranges")
     scan_vars = {str(norm(t)) for st in ast.walk(scan) if isinstance(st, ast.Assign) for t in st.targets}
+    copies = {}
+    for st in ast.walk(fn):
+        if isinstance(st, ast.Assign) and len(st.targets) == 1 and isinstance(st.targets[0], ast.Name) and isinstance(st.value, ast.Name):
+            copies[st.targets[0].id] = st.value.id
     for c in sets:
         arg = str(norm(c.args[0])) if c.args else ""
+        arg = copies.get(arg, arg) if arg not in scan_vars else arg  # a plain copy of the scan's variable is that variable
         rep.check(arg in scan_vars and c.lineno > scan.lineno, "C05-m", site, f"`{str(norm(c))[:60]}` sets the offset chosen by the gap scan",
                   f"`{arg}` is not assigned by the scan of the live allocations (or is set before it): a remembered address of a released block is reused although a later range may have taken part of that hole - two live ranges overlap")
